@@ -13,7 +13,7 @@ use std::process::{Child, ChildStdin, Command, Stdio};
 use std::sync::mpsc;
 use std::time::{Duration, Instant};
 
-pub const WATCHDOG: Duration = Duration::from_secs(120);
+pub const WATCHDOG: Duration = Duration::from_secs(40);
 
 // ---------------------------------------------------------------------------------------------
 // worker side
@@ -29,6 +29,11 @@ pub fn limit_address_space(bytes: u64) {
 }
 
 /// Serve runs until stdin closes. `run` maps a run index to its JSON result.
+/// Set by a world when the process must not serve further runs (e.g. a node thread is stuck in an
+/// endless loop inside Mech and cannot be reclaimed): the worker answers the current run and exits;
+/// the supervisor starts a fresh worker for the rest of the range.
+pub static EXIT_AFTER_RUN: std::sync::atomic::AtomicBool = std::sync::atomic::AtomicBool::new(false);
+
 pub fn worker_loop(mut run: impl FnMut(u64) -> J) {
   let stdin = std::io::stdin();
   let stdout = std::io::stdout();
@@ -43,6 +48,7 @@ pub fn worker_loop(mut run: impl FnMut(u64) -> J) {
           { let mut o = stdout.lock(); writeln!(o, "S {}", k).ok(); o.flush().ok(); }
           let r = run(k);
           { let mut o = stdout.lock(); writeln!(o, "R {} {}", k, r).ok(); o.flush().ok(); }
+          if EXIT_AFTER_RUN.load(std::sync::atomic::Ordering::SeqCst) { std::process::exit(0); }
         }
         { let mut o = stdout.lock(); writeln!(o, "D").ok(); o.flush().ok(); }
       }
